@@ -50,4 +50,10 @@ MUTANTS = [
  {"id": "any-form-split-on-semicolon", "kind": "break", "edits": [{"patch": "/verif/benign/pattern-3/patch.diff"}, ("src/pattern.rs", "alternatives.split(',').any(", "alternatives.split(';').any(")], "expect": ["D2-EXPANSION"]},
  {"id": "any-form-skips-first-alternative", "kind": "break", "edits": [{"patch": "/verif/benign/pattern-3/patch.diff"}, ("src/pattern.rs", "alternatives.split(',').any(", "alternatives.split(',').skip(1).any(")], "expect": ["D"]},
 
+ # the brace group as a small struct with hand-computed absolute positions (benign/h3-pattern-3) and its one-line breakages
+ {"id": "group-struct-benign", "kind": "benign", "edits": [{"patch": "/verif/benign/h3-pattern-3/patch.diff"}]},
+ {"id": "group-struct-close-from-start", "kind": "break", "edits": [{"patch": "/verif/benign/h3-pattern-3/patch.diff"}, ("src/pattern.rs", "let close = open + pattern[open..].find('}')?;", "let close = pattern.find('}')?;")], "expect": ["D"]},
+ {"id": "group-struct-choices-keep-brace", "kind": "break", "edits": [{"patch": "/verif/benign/h3-pattern-3/patch.diff"}, ("src/pattern.rs", "choices: &pattern[open + 1..close],", "choices: &pattern[open..close],")], "expect": ["D2-EXPANSION"]},
+ {"id": "group-struct-suffix-keeps-brace", "kind": "break", "edits": [{"patch": "/verif/benign/h3-pattern-3/patch.diff"}, ("src/pattern.rs", "suffix: &pattern[close + 1..],", "suffix: &pattern[close..],")], "expect": ["D2-EXPANSION"]},
+
 ]
